@@ -752,6 +752,14 @@ def r01_1(ctx):
                 payload_ok = src is not None and (Sym("payload") in src.args or Sym("payload") in src.kwargs.values())
             if not payload_ok:
                 bad = f"the frame handed to _send_data_frame ({fr_!r}) does not carry the caller's payload"
+        if not bad and tasks:
+            # the order in which callers' frames go out is the order in which their tasks join the (FIFO) transmit window: a caller that
+            # waits for something *before* its task exists (a flow-control event, a lock of its own) can be overtaken by a later caller
+            i_task = p.events.index(tasks[0])
+            early = [e for e in p.events[:i_task] if e.kind == "await" or (e.kind == "enter" and not str(e.what).startswith("LOGGER"))]
+            if early:
+                bad = (f"send_data waits ({early[0].what}) before the transmission task exists: callers are queued in the order their tasks are created, so a "
+                       "send made while an earlier one is still waiting here goes out first (payloads reach the NCP out of order)")
         if not bad and any(str(e.extra) == "raises CancelledError" for e in calls):
             # the caller was cancelled while the send is in flight: the transmission goes on (retry budget, failure report)
             killed = [e for e in calls if (e.callee or e.what).endswith(".cancel") and "task" in (e.callee or e.what)]
